@@ -124,6 +124,9 @@ def enable_queries() -> None:
         getattr(utils.get_terminal_name_version, "_invalidate_cache")()
         with utils._cell_size_lock:
             utils._cell_size_cache[:] = (0,) * 4
+        # May have been determined as unsupported only because queries were disabled
+        if AutoCellRatio.is_supported is False:
+            AutoCellRatio.is_supported = None
 
 
 def enable_win_size_swap() -> None:
